@@ -225,5 +225,87 @@ Example refuses_everywhere_example :
 Proof. apply gate_refuses_sound. vm_compute. reflexivity. Qed.
 
 
+(** * Extensionality in the stores (C05, Layer B): a line's result - value, refusal, crash, or the NAME it waits for - depends only on what
+    each name is bound to, not on how the stores are laid out (order of the entries, shadowed duplicates, order of the participating forms) *)
+Definition same {A} (r r':res A) : Prop := r' = r.
+Lemma same_refl A (r:res A) : same r r.
+Proof. reflexivity. Qed.
+Lemma bind_same A B (ra ra':res A) (k k':A -> res B) : same ra ra' -> (forall a, same (k a) (k' a)) -> same (bind ra k) (bind ra' k').
+Proof. unfold same. intros H Hk. subst ra'. destruct ra; simpl; auto. Qed.
+Lemma fold_same A B (f f':res A -> B -> res A) (l:list B) :
+  (forall acc acc' it, same acc acc' -> same (f acc it) (f' acc' it)) -> forall i i', same i i' -> same (fold_left f l i) (fold_left f' l i').
+Proof. intros Hf. induction l as [|x t IH]; intros i i' Hi; simpl; [exact Hi|]. apply IH. apply Hf. exact Hi. Qed.
+
+Record ctx_eqv (c c':ctx) : Prop := {
+  eq_cat : x_cat c' = x_cat c;
+  eq_form : x_form c' = x_form c;
+  eq_inst : x_inst c' = x_inst c;
+  eq_tax : x_tax c' = x_tax c;
+  eq_forms : forall f, existsb (String.eqb f) (x_forms c') = existsb (String.eqb f) (x_forms c);
+  eq_vals : forall k, slookup k (x_vals c') = slookup k (x_vals c);
+  eq_inps : forall k, slookup k (x_inps c') = slookup k (x_inps c)
+}.
+
+Section E.
+Context (c c':ctx) (EQ:ctx_eqv c c').
+
+Lemma qualify_eq' k : qualify c' k = qualify c k.
+Proof. unfold qualify, own_name. rewrite (eq_form _ _ EQ), (eq_inst _ _ EQ). reflexivity. Qed.
+
+Lemma do_read_same k s : same (do_read c k s) (do_read c' k s).
+Proof.
+  unfold do_read, same. rewrite qualify_eq'. destruct k; rewrite ?(eq_vals _ _ EQ), ?(eq_inps _ _ EQ); reflexivity.
+Qed.
+
+Lemma call_fn_eq' f vs : call_fn c' f vs = call_fn c f vs.
+Proof. unfold call_fn. rewrite (eq_tax _ _ EQ). reflexivity. Qed.
+
+Ltac estep IHe IHx :=
+  match goal with
+  | H : same ?a ?b |- same ?a ?b => exact H
+  | |- same ?x ?x => apply same_refl
+  | |- same (bind _ _) (bind _ _) => apply bind_same; [|intros ?]
+  | |- same (eval c _ _ _) (eval c' _ _ _) => apply IHe
+  | |- same (exec c _ _ _) (exec c' _ _ _) => apply IHx
+  | |- same (call_fn c _ _) (call_fn c' _ _) => rewrite call_fn_eq'; apply same_refl
+  | |- same (if existsb ?p (x_forms c) then _ else _) _ => rewrite (eq_forms _ _ EQ); apply same_refl
+  | |- same (do_read c _ _) (do_read c' _ _) => apply do_read_same
+  | |- same (fold_left _ _ _) (fold_left _ _ _) => apply fold_same; [intros ? ? ? ?|]
+  | |- same (?f ?n ?b ?a) (?g ?n ?b ?a) => is_fix f; change (same (exec c n b a) (exec c' n b a))
+  | |- same (?f ?l) (?g ?l) => is_fix f; induction l; cbv beta iota zeta
+  | |- same (if ?b then _ else _) (if ?b then _ else _) => destruct b
+  | |- same (match ?x with _ => _ end) (match ?x with _ => _ end) => destruct x
+  | |- same (let (_, _) := ?x in _) (let (_, _) := ?x in _) => destruct x
+  end.
+
+Lemma ext n : (forall e r, same (eval c n e r) (eval c' n e r)) /\ (forall l r, same (exec c n l r) (exec c' n l r)).
+Proof.
+  induction n as [|n [IHe IHx]]; [split; intros; reflexivity|].
+  split.
+  - intros e r. destruct e; rewrite ?eval_block; cbn [eval exec]; rewrite ?(eq_cat _ _ EQ), ?(eq_form _ _ EQ), ?(eq_inst _ _ EQ), ?call_fn_eq'.
+    all: repeat estep IHe IHx.
+  - intros l r. destruct l as [|s rest]; [apply same_refl|].
+    rewrite !exec_cons. destruct s; cbv beta iota zeta.
+    all: repeat estep IHe IHx.
+Qed.
+End E.
+
+Theorem line_value_ext c c' fuel l : ctx_eqv c c' -> line_value c' fuel l = line_value c fuel l.
+Proof.
+  intros EQ. unfold line_value. apply bind_same; [exact (proj2 (ext c c' EQ fuel) (l_body l) [])|intros a; reflexivity].
+Qed.
+
+(* non-vacuity: the same bindings in another order, with a shadowed duplicate *)
+Example ctx_eqv_example :
+  let c1 := Ctx [] "f" None [("f.a", PNum 1); ("f.b", PNum 2)] [] ["f"; "g"] (fun _ _ => RCrash COther) in
+  let c2 := Ctx [] "f" None [("f.b", PNum 2); ("f.a", PNum 1); ("f.b", PNum 7)] [] ["g"; "f"; "g"] (fun _ _ => RCrash COther) in
+  forall fuel l, line_value c2 fuel l = line_value c1 fuel l.
+Proof.
+  intros c1 c2 fuel l. apply line_value_ext. constructor; try reflexivity.
+  - intros f. simpl. destruct (String.eqb f "f"), (String.eqb f "g"); reflexivity.
+  - intros k. simpl. destruct (String.eqb k "f.a") eqn:A, (String.eqb k "f.b") eqn:B; try reflexivity.
+    apply String.eqb_eq in A. apply String.eqb_eq in B. congruence.
+Qed.
+
 Lemma forallb_filter A (f:A -> bool) (l:list A) : forallb f (filter f l) = true.
 Proof. induction l as [|a t IH]; simpl; [reflexivity|]. destruct (f a) eqn:E; simpl; rewrite ?E; auto. Qed.
